@@ -8,7 +8,7 @@ TRUSTED_BASE = [
     "no extraction is used; no axiom is declared by the development",
 ]
 
-HOOK_COMMITS = ["b18f4f3", "f3e0595", "ad52d71"]
+HOOK_COMMITS = ["b18f4f3", "f3e0595", "ad52d71", "3322ab3"]
 NOT_YET = {}
 
 HCOBS_RULE = "exhaustive: every string over {FE, FD, 00} up to length 6 (quick) / 8 (thorough) at limits (3,5) and (1,1), unsplit and split in two with different methods and drains; random histories at tiny limits (3,5) (1,1) (2,3) (1,2) (4,4) (5,3) through the verif_hooks wrappers and at the production limits through the real Encoder/Decoder: messages of random / FE-FD-rich / FE-FD-only bytes, lengths 0-40, around 252, up to 1200, and (every 40th quick case, all thorough) around 64008, 252+64008 and 252+2*64008 with FE/FD planted at the limits; up to 6 pieces per side via borrow / copy / anchored / read, interleaved with consume-slices / advance-bytes / Read drains; a fifth of the cases feed malformed bytes to the decoder (truncated, out-of-radix, trailing, flipped, random); distinct = distinct case line; non-trivial = at least two encode calls or at least two chunks"
@@ -145,8 +145,8 @@ PROPS = {
         "assumptions": ["Arc<Chunk> releases the chunk exactly when the last clone is dropped", "caller-provided buffers outlive the iovec (borrow checker)"],
     },
     "C10": {
-        "families": ["anch"],
-        "n": {"quick": {"iovw": 1200}, "thorough": {"iovw": 25000}},
+        "families": ["anch", "hint"],
+        "n": {"quick": {"iovw": 1200, "hint": 3000}, "thorough": {"iovw": 25000, "hint": 100000}},
         "rule": IOV_RULE,
         "level_text": "Theorems C10_find_hint_size / C10_live_iff_held / C10_no_leak: the model of the arena size policy (find_hint_size over the translated size sequence) returns a capacity >= the request, strictly larger than the previous chunk below 1 MiB and never above max(1 MiB, request rounded up to 4 KiB), so at most |sequence| sub-MiB chunks are ever created per arena; in the ownership model a chunk is live exactly while some anchor or cache holds it and nothing is live once every holder is gone. PARTIAL: the streaming footprint bound is measured, not proved: after every operation of every history the harness compares the process-wide live chunk counter with the number of chunks referenced by any anchor or allocation cache of any object (a hidden holder or a stuck anchor shows as a numeric disagreement) and checks that it returns to zero when every object is dropped; the thorough tier streams hundreds of MiB through an Encoder and records the peak of live bytes.",
         "level_note": "Trusted: Coq kernel; Arc; the global counters NUM_LIVE_CHUNKS / NUM_LIVE_BYTES (single-threaded harness process); the system allocator and RSS are not modelled.",
